@@ -32,11 +32,30 @@ def cases(tier, seed):
         cfg = {'scenario': 'batch', 'n': n, 'x': x, 'members': [{'m': m, 'cap': cap, 'values': ['0'] * m, 'zero_blindings': True, 'seeded': seeded, 'sym_bits': False}],
                'actions': ['VerifyOnly', 'RecoverAndVerify', 'RecoverOnly']}
         out.append({'cfg': cfg, 'name': 'identity commitment (value 0, zero mask) n%d m%d x%d' % (n, m, x)})
+    # the same honest proofs verified together: members of different aggregation factor under ONE shared generator capacity (so their
+    # capacity - aggregation slack differs), each in its own caller context, in every order
+    import itertools
+    for (n, x, shape) in ([(4, 1, [(1, 2), (2, 2)]), (2, 2, [(1, 4), (4, 4), (2, 4)])] if tier == 'quick' else
+                          [(4, 1, [(1, 2), (2, 2)]), (2, 2, [(1, 4), (4, 4), (2, 4)]), (8, 3, [(2, 8), (1, 8), (8, 8)]), (64, 1, [(1, 2), (2, 2)])]):
+        for perm in itertools.permutations(range(len(shape))):
+            members = [{'m': shape[i][0], 'cap': shape[i][1], 'values': 'sym' if n * sum(s_[0] for s_ in shape) <= 96 else None, 'seeded': shape[i][0] == 1, 'label': 'member %d' % i} for i in perm]
+            cfg = {'scenario': 'batch', 'n': n, 'x': x, 'members': members, 'actions': ['VerifyOnly', 'RecoverAndVerify', 'RecoverOnly']}
+            out.append({'cfg': cfg, 'name': 'honest proofs together n%d x%d (m,cap)=%s' % (n, x, [shape[i] for i in perm]), 'batch': True})
     return out
 
 
 def analyse(ctx, case, run, S):
     cfg = case['cfg']
+    if case.get('batch'):
+        if not ctx.expect(all(p['result'] == 'ok' for p in run.out['prove']) and run.out['verify'], 'C01:prove-ok', 'prover refused a valid witness (%s)' % case['name'], cfg, 'honest_rejected'):
+            return
+        for v in run.out['verify']:
+            if not ctx.expect(v['result'] == 'ok', 'C01:verify-ok:' + v['action'],
+                              'verifier (%s) refused honest proofs verified together (%s): %s' % (v['action'], case['name'], v['result']), cfg, 'honest_rejected'):
+                continue
+            if v['action'] != 'RecoverOnly':
+                residual_obligations(ctx, run, S, case, v, '%s %s' % (case['name'], v['action']), 'C01')
+        return
     pr = run.out['prove'][0]
     if not ctx.expect(pr['result'] == 'ok', 'C01:prove-ok', 'prover refused a valid witness (%s): %s' % (case['name'], pr['result']), cfg,
                       'honest_rejected'):
